@@ -178,6 +178,7 @@ func main() {
 	evOut := fs.String("evidence", "", "evidence path (default <verif>/evidence/<id>.json)")
 	cpuprof := fs.String("cpuprofile", "", "write a CPU profile")
 	vector := fs.String("vector", "", "debug: run the harness concretely on the inputs of this replay file")
+	rfile := fs.String("replayfile", "", "re-run the recorded counterexample in this file natively against -repo and stop")
 	fs.Parse(os.Args[2:])
 	if *id == "" {
 		fmt.Fprintln(os.Stderr, "missing -id")
@@ -191,6 +192,7 @@ func main() {
 		seed, _ = strconv.Atoi(s)
 	}
 	debugVector = *vector
+	replayFile = *rfile
 	if *cpuprof != "" {
 		f, _ := os.Create(*cpuprof)
 		pprof.StartCPUProfile(f)
@@ -248,6 +250,7 @@ type replayRun struct {
 }
 
 var debugVector string
+var replayFile string
 
 func run(id, tier, repo, verif, only string, workers int, trace, noReplay bool, solverKind, evOut string, seed int) int {
 	start := time.Now()
@@ -372,6 +375,39 @@ func run(id, tier, repo, verif, only string, workers int, trace, noReplay bool, 
 			}
 		}
 		dirs[h.dir] = append(dirs[h.dir], h)
+	}
+
+	// replay mode: run one recorded counterexample natively and stop
+	if replayFile != "" {
+		b, err := os.ReadFile(replayFile)
+		if err != nil {
+			return fail("%v", err)
+		}
+		var doc struct {
+			Dir  string       `json:"dir"`
+			Runs []*replayRun `json:"runs"`
+		}
+		if err := json.Unmarshal(b, &doc); err != nil || len(doc.Runs) == 0 {
+			return fail("bad replay file %s", replayFile)
+		}
+		for _, r := range doc.Runs {
+			r.dir, r.purpose = doc.Dir, "violation"
+		}
+		if err := nativeReplay(repo, scratch, overlayFiles, dirs, doc.Runs, tier); err != nil {
+			fmt.Println("replay failed:", err)
+			return 2
+		}
+		code := 0
+		for _, r := range doc.Runs {
+			for _, l := range r.out {
+				fmt.Println(l)
+			}
+			fmt.Println("VERIF-RESULT:", r.result)
+			if strings.HasPrefix(r.result, "reproduced") {
+				code = 1
+			}
+		}
+		return code
 	}
 
 	// 3. load + SSA
